@@ -1390,7 +1390,9 @@ func crossInjectorCases() []*RejectCase {
 			nf.Stub, nb.Stub = true, true
 			bs := b.Set(0, "BarSet", ItemRef(nb.ID))
 			mk := []func(){
-				func() { b.Inj("InitBar", bar, false, false, nil, ItemRef(nf.ID), SetRef(bs.ID)).Build = []Ref{SetRef(bs.ID)} },
+				func() {
+					b.Inj("InitBar", bar, false, false, nil, ItemRef(nf.ID), SetRef(bs.ID)).Build = []Ref{SetRef(bs.ID)}
+				},
 				func() { b.Inj("InitFoo", foo, false, false, nil, ItemRef(nf.ID), SetRef(bs.ID)) },
 			}
 			if secondFirst {
